@@ -398,6 +398,68 @@ func runC14(c *Ctx) {
 		if drv == nil {
 			c.undecided("C14-R3: ORM.Transaction no longer asserts a concrete driver type; executor rule cannot be evaluated")
 		}
+		// ... and every other statement executor of the Database interface (a method taking a context and a query text):
+		// code inside the callback may use the driver directly with the callback's context
+		if di, ok := c.pkg(dbPkg).Types.Scope().Lookup("Database").(*types.TypeName); ok {
+			if it, ok := di.Type().Underlying().(*types.Interface); ok {
+				for i := 0; i < it.NumMethods(); i++ {
+					m := it.Method(i)
+					sig := m.Type().(*types.Signature)
+					if sig.Params().Len() >= 2 && typeIs(sig.Params().At(0).Type(), "context", "Context") {
+						if bt, ok := sig.Params().At(1).Type().Underlying().(*types.Basic); ok && bt.Kind() == types.String {
+							if _, seen := used[m.Name()]; !seen {
+								used[m.Name()] = token.NoPos
+							}
+						}
+					}
+				}
+			}
+		}
+		// a nested call never begins an independent transaction: the driver's Transaction/Begin is reachable only on
+		// the edge on which the context was found to carry no transaction
+		{
+			var lookups []ssa.Value
+			eachInstr(txFn, func(_ *ssa.BasicBlock, _ int, ins ssa.Instruction) {
+				call, ok := ins.(*ssa.Call)
+				if !ok {
+					return
+				}
+				// ctx.Value(key) directly, or a package helper that does it and returns *sql.Tx
+				if call.Call.IsInvoke() && call.Call.Method.Name() == "Value" && typeIs(call.Call.Value.Type(), "context", "Context") {
+					lookups = append(lookups, call)
+				}
+				if sf := staticFn(call); sf != nil && typeIs(call.Type(), "database/sql", "Tx") {
+					lookups = append(lookups, call)
+				}
+			})
+			begins := 0
+			bad := false
+			eachInstr(txFn, func(_ *ssa.BasicBlock, _ int, ins ssa.Instruction) {
+				call, ok := ins.(*ssa.Call)
+				if !ok {
+					return
+				}
+				n := callName(call)
+				if !(strings.HasSuffix(n, "."+drv.Obj().Name()+".Transaction") || strings.HasSuffix(n, ".Begin") || strings.HasSuffix(n, ".BeginTx")) {
+					return
+				}
+				begins++
+				q := &pathQuery{fn: txFn, target: func(x ssa.Instruction) bool { return x == ins }, cutEdge: func(b *ssa.BasicBlock, si int) bool {
+					for _, l := range lookups {
+						if nilOnEdge(b, si, l) {
+							return true
+						}
+					}
+					return false
+				}}
+				if hit, _ := q.fromEntry(); hit != nil {
+					bad = true
+				}
+			})
+			if begins > 0 {
+				c.ob("C14-R3", fnKey(txFn)+"#nested-call-joins-the-enclosing-transaction", txFn.Pos(), !bad, "ORM.Transaction begins a new, independent transaction without first finding that the context carries none: called inside another Transaction's callback it commits its work on its own, so that work survives a rollback of the enclosing transaction (and with a single pooled connection the nested Begin blocks forever)")
+			}
+		}
 		names := make([]string, 0, len(used))
 		for m := range used {
 			names = append(names, m)
